@@ -7,6 +7,28 @@ BASE_CMD = ("cd /repo && /venv/bin/python -m pytest -ra -q -p no:cacheprovider -
 TRUST = ("Trusted: CPython, numpy, the reference model in pmc/ref.py (exact rationals, self-tested against the "
          "documentation's worked examples), the enumerators' bounds as stated in the evidence file.")
 CHECKS = {
+ 'C05': dict(
+    technique="exhaustive enumeration of the solution-specification grammar; feasibility classified by an exact rational linear solve; results judged by definition against the reference model",
+    text="~17 000 specifications per valuation (6 solute lists x 5 solvents incl. 3 containers x 4 feasibility levels x which-two-of-three x every concentration spelling / quantity / total unit, "
+         "+ broadcast, inconsistent and wrong-kind families): key set, positivity, every stated concentration / quantity / total, uniform solvent aliquot and conservation, accept/refuse decision.",
+    note="Values come from three valuations and four feasibility levels; don't-care near boundaries, for singular specs, and where the solvent container already holds the solute. " + TRUST,
+    ref="DESIGN.md section 4 C05"),
+ 'C11': dict(
+    technique="exhaustive enumeration of dilute/fill_to specifications derived from the current state by the reference model; results judged by definition",
+    text="7 mixture classes x solute x solvent (present/other) x 17 concentration spellings x 6 target factors x 4 capacity classes for dilute; 10 unit spellings x 4 factors x capacities x 3 solvent kinds for fill_to: "
+         "only the solvent increases, target met, capacity respected, refusal above the current concentration / below the current quantity.",
+    note="Factor 1 is don't-care. " + TRUST,
+    ref="DESIGN.md section 4 C11"),
+ 'C12': dict(
+    technique="exhaustive enumeration of create_solution_from specifications; feasibility by an exact 2x2 rational solve; results judged by definition incl. uniform aliquots and conservation",
+    text="5 stocks x 4 solvent forms x 16 concentration spellings x 4 ratios x 7 quantity units x 3 sizes (12 160 specs per valuation).",
+    note="Ratio 1 and whole-stock requests are don't-care. " + TRUST,
+    ref="DESIGN.md section 4 C12"),
+ 'C17': dict(
+    technique="exhaustive enumeration of mixtures x selectors x object forms, direct and as recipe step, against the reference model and a ledger of removed amounts",
+    text="All 31 non-empty mixtures of 5 substances x 9 selectors x {container, whole plate, 12 slice geometries} x {direct, recipe}: exact contents, volume, frame, and the link to get_substance_used / get_container_flows.",
+    note=TRUST,
+    ref="DESIGN.md section 4 C17"),
  'C06': dict(
     technique="exhaustive enumeration of the finite conversion table (substance kinds x unit pairs x prefixes x configurations) against an exact-rational reference",
     text="All 41 x 41 prefixed unit pairs x 11 substances x 6 amounts of Unit.convert_from (factor, zero/reject cells, linearity, round trip), "
